@@ -164,7 +164,15 @@ def services_ir(pkg="com.palantir.svc", set_double_query=True):
     svc = ir.service("Everything", eps, package=pkg)
     svc["docs"] = "Service docs"
     empty = ir.service("EmptyService", [], package=pkg)
-    return ir.definition(types=types, services=[svc, empty], errors=[
+    # services in which a shape occurs ONLY behind an alias (no literal twin in the same service to mask a missed dealiasing)
+    alias_only = ir.service("AliasOnly", [
+        ir.endpoint("binBody", "POST", "/ao/bin", [ir.arg("body", R("BinAlias"), "body")], returns=R("BinAlias")),
+        ir.endpoint("optBinRet", "GET", "/ao/optbin", [], returns=R("OptBinAlias")),
+        ir.endpoint("optBody", "POST", "/ao/opt", [ir.arg("body", R("OptObjAlias"), "body")], returns=R("OptAlias")),
+        ir.endpoint("listRet", "GET", "/ao/list/{p}", [ir.arg("p", R("RidAlias"), "path"), ir.arg("q", R("OptAlias"), "query", "q"),
+                                                       ir.arg("s", R("SetAlias"), "query", "s"), ir.arg("h", R("OptAlias"), "header", "H")], returns=R("ListAlias")),
+    ], package=pkg)
+    return ir.definition(types=types, services=[svc, empty, alias_only], errors=[
         ir.error("E1", "Svc", "NOT_FOUND", [ir.field("id", P("RID")), ir.field("obj", R("Obj"))], [ir.field("d", P("DOUBLE")), ir.field("o", ir.optional(P("STRING")))], package=pkg),
         ir.error("NoArgs", "Svc", "INTERNAL", [], [], package=pkg)])
 
